@@ -63,7 +63,7 @@ MCNext ==
         \/ /\ env.nfault < MaxFaults /\ S.cur.cmd \in DevCmds
            /\ \E d \in FaultKinds : (d \in {"fail", "later"} => S.cur.cmd \in StatusCmds) /\ Exec(d)
            /\ Bump("nfault")
-  \/ (Start \/ Top \/ Wake \/ AfterSleep0 \/ (\E b \in BOOLEAN : DeliverCancel(b)) \/ CmdDone \/ Exit \/ TailStep \/ Finally) /\ UNCHANGED env
+  \/ (Start \/ Top \/ Wake \/ AfterSleep0 \/ (\E b \in BOOLEAN : DeliverCancel(b)) \/ CmdDone \/ Exit \/ TailStep \/ Finally \/ AOpsStep \/ AOpsCancel) /\ UNCHANGED env
   \/ /\ env.nreq < MaxReq
      /\ \/ "pause" \in ReqKinds /\ ReqPause(FALSE) /\ Bump("nreq")
         \/ "defer" \in ReqKinds /\ ReqPause(TRUE) /\ Bump("nreq")
